@@ -8,6 +8,7 @@ import (
 	"go/token"
 	"go/types"
 	"strings"
+	"time"
 
 	"github.com/goplus/gogen"
 
@@ -24,9 +25,10 @@ func init() {
 			"For every signature: every argument list of the signature's arity (and arity±1) over {1, 1.5, \"s\", 'a', true, nil, 15 typed variables incl. named, generic-instance and function types, two generic function values}, spread calls for variadic signatures; crossed with every explicit type-argument prefix of length 0..n+1 over a type alphabet; in five modes: call, assignment to a typed function variable, reference without call, XGox_ call with leading type arguments, and generic type instantiation (CodeBuilder and Package.Instantiate). " +
 			"Oracle: go/types on the reference text decides accept/reject; on accept the type arguments go/types records (Info.Instances) for the callee in the EMITTED text must equal those of the reference text, the emitted text must type-check, and the result type / instantiated signature the builder reports must equal go/types'. " +
 			"non-trivial = uses where at least one type argument is inferred (not explicit) or a constraint/inference failure is expected; distinct = signature x explicit list x argument list x mode",
-		Assumptions: []string{"go/types 1.23.5 is the reference inference", "the fixture importer serves the same packages to builder and oracle"},
-		Run:         run,
-		Replay:      replay,
+		Assumptions:    []string{"go/types 1.23.5 is the reference inference", "the fixture importer serves the same packages to builder and oracle"},
+		ThoroughBudget: 60 * time.Minute,
+		Run:            run,
+		Replay:         replay,
 	})
 }
 
